@@ -3,7 +3,7 @@
 p="$1"; shift
 [ -z "$(git -C /repo status --porcelain)" ] || { echo "/repo not clean"; exit 2; }
 git -C /repo apply "$p" || exit 2
-( cd /verif && "$@" ); rc=$?
+( cd /verif && timeout 3000 "$@" ); rc=$?
 git -C /repo checkout -- .
 rm -rf /verif/replays
 exit $rc
